@@ -138,3 +138,50 @@ func DeferredCalleeID(d *ssa.Defer) string {
 }
 
 func isLiteral(f *ssa.Function) bool { return f.Parent() != nil }
+
+// LiftE is Lift with an additional per-function set of excusing edges: a path
+// of a wrapper that takes one of edgesOf(wrapper) counts as having done it
+// (used for "does X unless there is nothing to do", e.g. a nil timer).
+func LiftE(pred func(ssa.Instruction) bool, edgesOf func(*ssa.Function) map[Edge]bool, depth int, inModule func(*ssa.Function) bool) func(ssa.Instruction) bool {
+	memo := map[*ssa.Function]bool{}
+	var lifted func(in ssa.Instruction) bool
+	var must func(fn *ssa.Function, d int) bool
+	lifted = func(in ssa.Instruction) bool {
+		if pred(in) {
+			return true
+		}
+		ci, ok := in.(ssa.CallInstruction)
+		if !ok {
+			return false
+		}
+		if _, isGo := in.(*ssa.Go); isGo {
+			return false
+		}
+		callee := ci.Common().StaticCallee()
+		if callee == nil || len(callee.Blocks) == 0 || (inModule != nil && !inModule(callee)) {
+			return false
+		}
+		if v, ok := memo[callee]; ok {
+			return v
+		}
+		memo[callee] = false
+		v := must(callee, depth)
+		memo[callee] = v
+		return v
+	}
+	must = func(fn *ssa.Function, d int) bool {
+		if d <= 0 {
+			return false
+		}
+		exits := map[ssa.Instruction]bool{}
+		for _, r := range Returns(fn) {
+			exits[r] = true
+		}
+		if len(exits) == 0 {
+			return false
+		}
+		h := Ungated(CutSpec{Fn: fn, GateInstr: lifted, GateEdge: edgesOf(fn), Sink: func(in ssa.Instruction) bool { return exits[in] }})
+		return len(h) == 0
+	}
+	return lifted
+}
